@@ -259,7 +259,22 @@ def gen_cases(rng, tier):
               "route": "main", "listing": False, "colon_key": True}
       cases.append(case)
       continue
-    if route in ("main", "api") and i % 5 == 4:
+    if i % 13 == 6:
+      # a key pasted from a web page or a PDF: white space other than blank / tab INSIDE it (no-break space, thin space,
+      # form feed).  The file tabulates as ever; an operation addressed to the key exactly as the file spells it must find
+      # that line, and the plain spelling added next to it is what it would be in the file
+      items0 = emit.model_items(m)
+      cand = [(s_, k_) for s_, its in items0 for k_, v_ in its if s_ in ("Pair", "EAM-Density", "EAM-Embed", "EAM-ADP-Dipole") and ("-" in k_)]
+      if cand:
+        s_, k_ = rng.choice(cand)
+        w_ = rng.choice([u"\u00a0", u"\u2009", u"\x0c", u"\u3000", u"\u00a0"])
+        sep_ = "->" if "->" in k_ else "-"
+        newk = k_.replace(sep_, rng.choice([w_ + sep_ + w_, sep_ + w_, w_ + sep_]), 1)
+        opk = rng.choice(["override", "override", "remove"])
+        ops = [{"op": opk, "section": s_, "key": newk, "value": "as.constant %s" % spec.fnum(spec.rfloat(rng, 0.5, 9.0))}]
+        route = rng.choice(["main", "main", "cli", "api"])
+        case = {"model": m, "ops": ops, "route": route, "listing": False, "options_first": False, "respell": [s_, k_, newk]}
+    if route in ("main", "api") and i % 5 == 4 and not case.get("respell"):
       # feature interaction: operations that address [Variables] itself, and an item written as ${VAR} that is
       # overridden with exactly the text it currently expands to ("frozen") while VAR is changed or removed
       case["freeze"] = {"tseed": rng.randrange(1 << 30), "force_last_key": (i // 5) % 2 == 0, "clear_variables": (i // 5) % 4 == 1}
@@ -267,6 +282,15 @@ def gen_cases(rng, tier):
       case.pop("combined", None)
     cases.append(case)
   return cases
+
+
+def case_items(case):
+  """The model's items, with one key re-spelled when the case says so."""
+  items = emit.model_items(case["model"])
+  rs = case.get("respell")
+  if rs:
+    items = [(s_, [((rs[2], v_) if (s_ == rs[0] and k_ == rs[1]) else (k_, v_)) for k_, v_ in its]) for s_, its in items]
+  return items
 
 
 def reference_edit(items, ops, drop_empty):
@@ -567,7 +591,9 @@ def run_case(case, ctx):
   ctx.cls("route:" + route)
   ctx.cls("target:" + m["target"])
   ctx.cls("nops:%d" % len(ops))
-  for s_, its in emit.model_items(m):
+  if case.get("respell"):
+    ctx.cls("key_with_exotic_whitespace_inside")
+  for s_, its in case_items(case):
     rem = [o for o in ops if o["op"] == "remove" and o["section"] == s_]
     if its and len(rem) >= len(its):
       ctx.cls("last_key_of_section_removed")
@@ -575,7 +601,7 @@ def run_case(case, ctx):
     ctx.cls("op:%s:%s" % (o["op"], o["section"].split(":")[0]))
     if norm(o["key"]) != o["key"]:
       ctx.cls("key_with_whitespace")
-  items = emit.model_items(m)
+  items = case_items(case)
   text = emit.items_text(items)
   colon = any(":" in o["section"] for o in ops)
   if case.get("combined"):
